@@ -126,6 +126,8 @@ def micro_programs():
         z = await mpc.output(mpc.input(secint(pid))[m - 1], receivers=[0])
         return [x, y, z if pid == 0 else 'none']
     progs_['transfer'] = transfer
+    from vlib import progs as _p
+    progs_['threshold_switch'] = _p.threshold_switch_program()[0]
     return progs_
 
 
@@ -146,6 +148,10 @@ def check_world(w, rec, what, case, feats, completed_required=True):
             mech = 'duplicate-label'
         elif 'payload handed over differs' in p:
             mech = 'payload-mismatch'
+        elif 'delivered but never handed' in p:
+            if w.status not in ('DEADLOCK', 'DONE'):
+                continue                                   # only final states: while the world is still moving the hand-over may yet happen
+            mech = 'delivered-not-handed-over'
         elif not done:
             # unmatched receives are only judged "once all parties have shut down"; but a run that has reached quiescence (no party can take a step and
             # nothing is in flight) is final too: a message that was sent under one label while the peer waits under another label on the same
@@ -201,7 +207,7 @@ def run(shard, rec):
                 case = [shard['name'], 'fxp', pi, policy, sseed]
                 if not rec.wants(case):
                     continue
-                w = sim.World(m, t, no_prss, seed=sseed, policy=policy).run(fxprogs.build(spec))
+                w = sim.World(m, t, no_prss, seed=sseed, policy=policy, history='auto').run(fxprogs.build(spec))
                 rec.count('runs')
                 feats = {'asymmetric_yield': spec.get('sleepy') is not None, 'deferred_bump': bool(w.deferred_bumps)}
                 n, frames, done = check_world(w, rec, f'{shard["name"]} fxp program {pi} {[s[0] for s in spec["steps"]]} policy {policy}', {'case': case, 'fxspec': spec, 'policy': policy}, feats)
@@ -218,7 +224,7 @@ def run(shard, rec):
                 case = [shard['name'], name, policy, sseed]
                 if not rec.wants(case):
                     continue
-                w = sim.World(m, t, no_prss, seed=sseed, policy=policy).run(prog)
+                w = sim.World(m, t, no_prss, seed=sseed, policy=policy, history='auto').run(prog)
                 rec.count('runs')
                 feats = {'asymmetric_yield': False, 'deferred_bump': bool(w.deferred_bumps), 'micro': name}
                 n, frames, done = check_world(w, rec, f'{shard["name"]} {name} policy {policy}', {'case': case}, feats)
